@@ -465,6 +465,59 @@ func TestVerifC12(t *testing.T) {
 				}, nil, -2, 0)
 			}
 		}
+		// the parent itself is deleted and re-created under the same name (new UID) just before one of the requests
+		// that read or write it: a benign race for the old incarnation - no panic, and nothing is written to the
+		// newcomer on the strength of what was observed of its predecessor
+		if scenario != "rolling" {
+			for i, q := range log {
+				if q.Kind != kit.Thing {
+					continue
+				}
+				id := ids[i]
+				dev := c12Dev{Scenario: scenario, Kind: "race:parent-replaced", Ident: id}
+				idx++
+				if !mc.MineKey(fmt.Sprintf("%+v", dev)) {
+					continue
+				}
+				r.Case(dev, fmt.Sprint(idx), func() []mc.Finding {
+					var f []mc.Finding
+					x := c12Build(scenario)
+					seen := map[string]int{}
+					newUID := ""
+					x.Sim.Plan = func(g *sim.Request) *sim.Fault {
+						gid := g.Ident()
+						seen[gid]++
+						if fmt.Sprintf("%s#%d", gid, seen[gid]) == id && newUID == "" {
+							old := x.Sim.GetLocked(kit.Thing, "n1", "p")
+							x.Sim.RemoveLocked(kit.Thing, "n1", "p")
+							np := kit.Obj(kit.Thing, "n1", "p")
+							np["spec"] = kit.Copy(kit.M{"s": old["spec"]})["s"]
+							kit.Field(np, "puid-2", "metadata", "uid")
+							x.Sim.SeedLocked(np)
+							newUID = "puid-2"
+							g.Pre = x.Sim.GetLocked(kit.Thing, "n1", "p")
+						}
+						return nil
+					}
+					x.Q.Clear()
+					x.Q.Put(x.key)
+					x.Sim.ResetLog()
+					p, stack := mc.Recover(func() { x.PC.processNextWorkItem() })
+					x.Sim.Plan = nil
+					r.Clause("no-panic")
+					if p != nil {
+						f = append(f, mc.Finding{Key: "C12:panic", Msg: fmt.Sprintf("%+v: worker panicked: %v\n%s", dev, p, stack)})
+						return f
+					}
+					for _, g := range x.Sim.Log {
+						if g.Kind == kit.Thing && g.Mutating() && g.Applied && kit.UID(g.Pre) == "puid-2" {
+							f = append(f, mc.Finding{Key: "C12:wrote-to-replaced-parent", Msg: fmt.Sprintf("%+v: %s was accepted on the re-created parent (uid puid-2), which this sync never observed", dev, g)})
+						}
+					}
+					return f
+				})
+			}
+		}
 		// pairs (thorough): two different requests of the same sync, same kind
 		if mc.Thorough() {
 			for i := range log {
